@@ -627,3 +627,49 @@ Definition new_psnps (src : list N) (es : list lspentry) (maxlen : Z) : res (lis
   if (per <? 1)%Z then Ok [] else
   let per := Z.to_nat per in
   psnp_loop (ceil_div (length es) per) 0 per src es.
+
+(* ------------------------------------------------------------------ TLV constructors (uint8 length arithmetic) *)
+
+(* NewAreaAddressesTLV: TLVLength += uint8(len(area)) + 1 per area *)
+Definition new_area_tlv (areas : list (list N)) : tlv :=
+  TArea 1 (fold_left (fun acc a => (acc + N.of_nat (length a) + 1) mod 256) areas 0) areas.
+(* NewDynamicHostnameTLV: uint8(len(name)) *)
+Definition new_dynhost_tlv (name : list N) : tlv := TDynHost 137 (N.of_nat (length name) mod 256) name.
+(* NewProtocolsSupportedTLV: uint8(len(protocols)) *)
+Definition new_proto_tlv (ids : list N) : tlv := TProto 129 (N.of_nat (length ids) mod 256) ids.
+(* NewIPInterfaceAddressesTLV: uint8(len(addrs) * 4) *)
+Definition new_ipif_tlv (addrs : list N) : tlv := TIPIf 132 ((N.of_nat (length addrs) * 4) mod 256) addrs.
+(* NewP2PAdjacencyStateTLV *)
+Definition new_p2padj_tlv (st ecid : N) : tlv := TP2PAdj 240 5 st ecid zero6 0.
+(* NewPaddingTLV(length uint8) *)
+Definition new_padding_tlv (len : N) : tlv := TPadding 8 len (repeat 0 (N.to_nat len)).
+(* NewTrafficEngineeringRouterIDTLV *)
+Definition new_terid_tlv (a : N) : tlv := TTERid 134 4 a.
+
+Definition sub_len (s : subtlv) : N :=
+  match s with SLinkLR _ l _ _ | SIPv4 _ l _ | SRaw _ l _ => l end.
+
+(* ExtendedISReachabilityNeighbor.AddSubTLV: SubTLVLength += tlv.Length() + 2 *)
+Definition extis_nbr_add_sub (n : extisnbr) (s : subtlv) : extisnbr :=
+  mkExtIsNbr (xn_id n) (xn_metric n) ((xn_sublen n + sub_len s + 2) mod 256) (xn_subs n ++ [s]).
+(* NewExtendedISReachabilityNeighbor followed by AddSubTLV calls *)
+Definition new_extis_nbr (id : list N) (metric : N) (subs : list subtlv) : extisnbr :=
+  fold_left extis_nbr_add_sub subs (mkExtIsNbr id metric 0 []).
+(* ExtendedISReachabilityTLV.AddNeighbor: TLVLength += 11 + n.SubTLVLength *)
+Definition extis_add (t : tlv) (n : extisnbr) : tlv :=
+  match t with
+  | TExtIS ty len ns => TExtIS ty ((len + 11 + xn_sublen n) mod 256) (ns ++ [n])
+  | _ => t
+  end.
+(* NewExtendedISReachabilityTLV followed by AddNeighbor calls *)
+Definition new_extis_tlv (ns : list extisnbr) : tlv := fold_left extis_add ns (TExtIS 22 0 []).
+
+(* ExtendedIPReachabilityTLV.AddExtendedIPReachability: TLVLength += 5 + BytesInAddr(PfxLen()) *)
+Definition extip_add (t : tlv) (r : extipreach) : tlv :=
+  match t with
+  | TExtIP ty len rs => TExtIP ty ((len + 5 + bytes_in_addr (xp_udpfx r)) mod 256) (rs ++ [r])
+  | _ => t
+  end.
+(* NewExtendedIPReachabilityTLV followed by AddExtendedIPReachability(NewExtendedIPReachability(metric, pfxLen, addr)) calls *)
+Definition new_extip_tlv (rs : list (N * N * N)) : tlv :=
+  fold_left extip_add (map (fun r => match r with (m, p, a) => mkExtIp m p a [] end) rs) (TExtIP 135 0 []).
